@@ -221,6 +221,14 @@ class _ShimIndexed(np.ndarray):
         return out.view(np.ndarray) if isinstance(out, np.ndarray) else out
 
 
+class _ShimScalar(np.float64):
+    def astype(self, t, *a, **k):
+        name = getattr(t, "__name__", "")
+        if name in ("sym_int", "sym_float"):
+            t = builtins.int if name == "sym_int" else builtins.float
+        return np.float64(self).astype(t, *a, **k)
+
+
 class SymNp:
     """numpy proxy for cloned module globals: a handful of scalar helpers understand
     proxies; everything else is NumPy."""
@@ -232,6 +240,14 @@ class SymNp:
         if k in self._over:
             return self._over[k]
         return getattr(np, k)
+
+    @staticmethod
+    def median(x, *a, **k):
+        """np.median of concrete numbers; the result's .astype(int) / .astype(float) understands the shim's int / float
+        (cloned code spells the dtype with the names `int` / `float`, which are shim callables there)"""
+        if isinstance(x, (tuple, list)) and any(isinstance(v, (SymInt, SymReal)) for v in x):
+            return np.median(x, *a, **k)  # (object arithmetic on the proxies, as without this shim)
+        return _ShimScalar(np.median(x, *a, **k))
 
     @staticmethod
     def empty(*a, **k):
